@@ -139,13 +139,24 @@ fn ws_positions(s: &str) -> Vec<usize> {
 
 pub fn build(tier: Tier) -> Check<'static> {
     let mut c = Check::new("C14", tier, "6/C14");
-    c.rule = "accepted seed (preprocessor fixed points only) x every token boundary x 3 bad bytes; x every single bracket / block keyword deleted; the same through `include; mutants through all three strict routes to a tree x ignore_include; 8 pp programs x every line start x 9 lexical faults; non-trivial = every mutant (distinct by construction)".into();
+    c.rule = "accepted seed or default sentence of a reference-grammar rule (preprocessor fixed points only) x every token boundary x 3 bad bytes; x every single bracket / block keyword deleted; the same through `include; mutants through all three strict routes to a tree x ignore_include; 8 pp programs x every line start x 9 lexical faults; non-trivial = every mutant (distinct by construction)".into();
     c.assumptions = vec![
         "every sentence of the grammar is balanced in ( ) [ ] { } characters outside strings, comments and escaped identifiers, and in begin/end, fork/join*, case/endcase and the other block keyword pairs; hence deleting one of them cannot yield a sentence".into(),
         "the end of an escaped identifier is not a token boundary (any non-blank byte extends it)".into(),
         "the position of a preprocessor-level fault is the first byte of the faulty token (opening quote, comment opener, backslash, backtick, unmatched conditional directive)".into(),
     ];
-    let seeds = Arc::new(corpus::load());
+    let mut seeds = corpus::load();
+    {
+        // the default sentence of every reference-grammar rule is an accepted program too (ids from 100000)
+        let g = crate::engines::svgen::Gen::new(crate::engines::svgen::grammar_text());
+        for (k, (rule, items)) in g.rule_defaults().into_iter().enumerate() {
+            let text = crate::engines::svgen::render(&items, " ", 0).text;
+            if text.len() < 260 {
+                seeds.push(corpus::Seed { id: 100_000 + k, kind: format!("sv grammar:{}", rule), text });
+            }
+        }
+    }
+    let seeds = Arc::new(seeds);
     let lim = tier.pick(260, 1 << 30);
     // tables
     let mut bad_tab: Vec<(usize, usize)> = vec![];
